@@ -11,7 +11,6 @@ package econst
 import (
 	"fmt"
 	"go/ast"
-	"go/token"
 	"go/types"
 	"math/big"
 	"os"
@@ -370,7 +369,10 @@ func RunMutants(run *report.Run, ruleID string, prog func(cfg string) *load.Prog
 			if hit != "" {
 				detected++
 				out.ok("mutants", construct)
-				lines = append(lines, fmt.Sprintf("%s [%s] %s -> reported: %s", mu.id, mu.cfg, mu.what, abbreviate(hit)))
+				if len(hit) > 220 {
+					hit = hit[:220] + "…"
+				}
+				lines = append(lines, fmt.Sprintf("%s [%s] %s -> reported on %s: %s", mu.id, mu.cfg, mu.what, mu.expect, hit))
 			} else {
 				out.fail("mutants", "-", construct, fmt.Sprintf("seeded edit (%s) was NOT reported on %s (%d other reports)", mu.what, mu.expect, len(ms.fails)))
 			}
@@ -393,5 +395,4 @@ func RunMutants(run *report.Run, ruleID string, prog func(cfg string) *load.Prog
 	}
 	run.Extra["mutants"] = fmt.Sprintf("%d/%d seeded value edits detected, %d/%d behaviour-preserving edits silent (in-memory overlays, /repo untouched)", detected, killers, silent, neutral)
 	run.Extra["mutant_log"] = lines
-	_ = token.NoPos
 }
